@@ -29,6 +29,7 @@ OWNER = {
     "put.seq": "C01", "put.nfid": "C06", "verify": "C01", "payload_end": "C24", "doctor.verify": "C21", "vecset": "C14", "ro.file": "C18", "card.query": "C27", "card.temporal": "C27", "card.set": "C27", "card.id": "C27",
     "capacity.accepted": "C24", "capacity.rejected": "C24",
     "card.source": "C26", "card.value": "C26", "card.queue": "C26",
+    "ticket.verified": "C25", "ticket.binding": "C25", "ticket.signed": "C25",
 }
 
 
@@ -329,6 +330,7 @@ def report(diags, out, prop, engine="core"):
 
 
 RESULT_OWNER = {"put": "C01", "update": "C08", "delete": "C08", "commit": "C01", "open": "C01", "ticket": "C25",
+                "signed_ticket": "C25", "bind": "C25", "bind_only": "C25", "unbind": "C25",
                 "create": "C19", "open_ro": "C18", "vacuum": "C42", "timeline": "C15", "by_uri": "C08", "doctor": "C21"}
 
 
@@ -482,11 +484,19 @@ def engine(tier):
     if mc.error:
         log(mc.output[-3000:])
         raise ToolError("TLC failed on MC_Mv2Core")
+    mct = run_tlc("MC_Mv2Core", cfg({"H": 0, "R0": 8, "TierCap": 1000, "HdrSize": 0, "Defects": "{}", "MaxFrames": 2, "MaxSteps": 9 if quick else 14,
+                                     "Uris": tla_set(["u1"])}, spec="TkSpec", invariants=["VerifiedIsBound"],
+                                    properties=["TicketMonotone", "RejectedUnchanged", "SignedOnlyAuthentic", "VerifiedOnlyBySigned", "ReopenShowsStored"],
+                                    constraint="Bound", view="View"), "mctk", workers=4, timeout=900)
+    if mct.error or mct.violated:
+        log(mct.output[-3000:])
+        raise ToolError("MC_Mv2Core (tickets): TLC failed or a C25 property of the specification is violated (%s)" % mct.violated)
     mcc = run_tlc("CardsTrack", cfg({"MaxCards": 3 if quick else 4, "Times": "{5, 10}"}, invariants=["ContractHolds"]), "mccards", workers=4, timeout=600)
     if mcc.error or mcc.violated:
         raise ToolError("CardsTrack: the transcription violates the C27 contract or TLC failed (%s)" % mcc.violated)
     return {
         "cards_model": {"states": mcc.distinct},
+        "ticket_model": {"states": mct.distinct, "transitions": mct.generated},
         "n_scenarios": len(scs), "n_random": n_basic, "n_tlc_generated": n_tlc, "accepted": accepted, "events": events,
         "diags": diags, "deviations": devs,
         "mc": {"states": mc.distinct, "transitions": mc.generated, "violated": mc.violated, "timed_out": mc.timed_out,
@@ -534,10 +544,60 @@ def fam_tickets(rng, quick):
             elif c < 0.7:
                 ops.append({"op": "commit"})
             elif c < 0.85:
-                ops.append({"op": "ticket", "seq": rng.choice(seqs), "cap": cap + rng.choice([0, 4000])})
+                ops.append({"op": "ticket", "seq": rng.choice(seqs), "cap": cap + rng.choice([0, 4000]), "issuer": rng.choice(["verif", "free-tier", "dashboard"])})
             else:
                 ops += [{"op": "close"}, {"op": "open"}]
         ops += [{"op": "close"}, {"op": "open"}, {"op": "ticket", "seq": rng.choice(seqs), "cap": cap}, {"op": "close"}]
+        out.append(ops)
+    return out
+
+
+TAMPERS = ["sig_flip", "sig_short", "sig_long", "sig_long2", "sig_zero", "sig_empty", "mem", "issuer", "seq", "exp", "cap", "cap_none", "wrongkey"]
+
+
+def fam_signed_tickets(rng, quick):
+    """C25: signed tickets (valid, tampered in every field, signed by another key, naming another memory, on an unbound
+    memory), unsigned tickets with several issuers, bind / bind-only / unbind, all interleaved with commit, reopen and a lost
+    handle, so that the copy of the ticket in the file and the one in the handle diverge and meet again."""
+    out = []
+    # every tamper kind once against a bound memory, followed by the authentic ticket (must still be accepted)
+    ops = [{"op": "create"}, {"op": "bind_only", "mem": 1}]
+    for i, t in enumerate(TAMPERS):
+        ops.append({"op": "signed_ticket", "seq": 5, "cap": 400000, "mem": 1, "tamper": t, "at": 7 * i + 1})
+    ops += [{"op": "signed_ticket", "seq": 5, "cap": 400000, "mem": 1}, {"op": "signed_ticket", "seq": 5, "cap": 400000, "mem": 1},
+            {"op": "close"}, {"op": "open"}, {"op": "signed_ticket", "seq": 5, "cap": 400000, "mem": 1},
+            {"op": "signed_ticket", "seq": 4, "cap": 900000, "mem": 1}, {"op": "signed_ticket", "seq": 6, "cap": 900000, "mem": 1, "tamper": "sig_long"},
+            {"op": "signed_ticket", "seq": 6, "cap": 900000, "mem": 1}, {"op": "close"}]
+    out.append(ops)
+    issuers = ["verif", "free-tier", "memvid.com", "dashboard"]
+    for k in range(4 if quick else 60):
+        ops = [{"op": "create"}]
+        hi = 1
+        for i in range(rng.randint(10, 18)):
+            c = rng.random()
+            seq = rng.choice([hi - 1, hi, hi + 1, hi + 1, hi + 2, 2, 50])
+            if c < 0.3:
+                t = rng.choice(["none", "none", "none"] + TAMPERS)
+                ops.append({"op": "signed_ticket", "seq": seq, "cap": rng.choice([300000, 800000]), "mem": rng.choice([1, 1, 1, 2]), "tamper": t,
+                            "issuer": rng.choice(issuers), "exp": rng.choice([0, 3600]), "at": rng.randrange(64)})
+            elif c < 0.45:
+                ops.append({"op": "ticket", "seq": seq, "cap": rng.choice([300000, 800000]), "issuer": rng.choice(issuers)})
+            elif c < 0.6:
+                ops.append({"op": "bind_only", "mem": rng.choice([1, 1, 2])})
+            elif c < 0.68:
+                ops.append({"op": "bind", "mem": rng.choice([1, 2]), "seq": seq, "cap": 500000, "issuer": rng.choice(issuers)})
+            elif c < 0.74:
+                ops.append({"op": "unbind"})
+            elif c < 0.82:
+                ops.append({"op": "commit"})
+            elif c < 0.9:
+                ops += [{"op": "close"}, {"op": "open"}]
+            elif c < 0.95:
+                ops += [{"op": "abandon"}, {"op": "open"}]
+            else:
+                ops.append({"op": "put", "uri": "mv2://t%d" % i, "pay": i + 1, "cls": "text", "size": 60, "ts": i})
+            hi = max(hi, seq) if ops[-1]["op"] in ("signed_ticket", "ticket", "bind") else hi
+        ops += [{"op": "close"}, {"op": "open"}, {"op": "signed_ticket", "seq": hi + 3, "cap": 700000, "mem": 1}, {"op": "close"}]
         out.append(ops)
     return out
 
@@ -690,7 +750,7 @@ def fam_payload_sizes(rng, quick):
     return out
 
 
-EXTRA_FAMILIES += [fam_capacity_edges, fam_payload_sizes, fam_many_small, fam_tickets, fam_known, fam_maintenance, fam_cards]
+EXTRA_FAMILIES += [fam_capacity_edges, fam_payload_sizes, fam_many_small, fam_tickets, fam_signed_tickets, fam_known, fam_maintenance, fam_cards]
 
 DEV_OWNER = {"D26_value_rewritten": "C26", "D01_commit_growth": "C01", "D08_update_chunked_empty": "C08", "D24_pending_ignored": "C24",
              "D24_payload_end_beyond_capacity": "C24"}
